@@ -601,6 +601,39 @@ def F40():
         return f"time tests answered differently by the index and by a storage scan (index, scan): {bad}"
 
 
+def F41():
+    import time as _time
+    old = os.environ.get("TZ")
+    os.environ["TZ"] = "America/Los_Angeles"
+    _time.tzset()
+    try:
+        early = datetime(1, 1, 1, 2, tzinfo=timezone.utc)
+        db = TinyFlux(storage=MemoryStorage)
+        db.insert(Point(time=early, fields={"a": 1}))
+        out = []
+        try:
+            if db.get_timestamps() != [early]:
+                out.append("get_timestamps() is wrong")
+        except Exception as e:  # noqa
+            out.append(f"get_timestamps() raises {type(e).__name__}: {e}")
+        try:
+            if db.count(TimeQuery().test(lambda x: True)) != 1:
+                out.append("count(TimeQuery().test(...)) is wrong")
+        except Exception as e:  # noqa
+            out.append(f"count(TimeQuery().test(...)) raises {type(e).__name__}")
+        db.insert(Point(time=T0, fields={"a": 2}))
+        if not db.index.valid:
+            out.append("a later in-order insert invalidates the index")
+        if out:
+            return "process zone America/Los_Angeles, one point at 0001-01-01T02:00Z: " + "; ".join(out)
+    finally:
+        if old is None:
+            os.environ.pop("TZ", None)
+        else:
+            os.environ["TZ"] = old
+        _time.tzset()
+
+
 ALL = [k for k in list(globals()) if re.fullmatch(r"F\d+[a-c]?", k)]
 
 if __name__ == "__main__":
